@@ -49,11 +49,13 @@ TEXTS["C06"] = {
 TEXTS["C14"] = {
     "text": "Proved over Int balances for all ledgers/accounts/amounts on the model of transfer/payGasFee/payLeftAsGasFee/payAdmins: a successful transfer between distinct accounts moves exactly v and "
             "needs 0<v<=balance (C14_transfer_exact), a self-transfer is neutral (C14_self_transfer_neutral), a transfer fails exactly for negative or uncovered amounts "
-            "(C14_transfer_fails_iff), no balance becomes negative (C14_transfer_nonneg, C14_payGasFee_sender_nonneg), rounding loss of the admin split is within [0,n-1] (C14_fee_rounding). "
+            "(C14_transfer_fails_iff), no balance becomes negative (C14_transfer_nonneg, C14_payGasFee_sender_nonneg), rounding loss of the admin split is within [0,n-1] (C14_fee_rounding). Block and history level (Proofs/ExecSupply.lean, ExecStepsS.lean): for EVERY block — transfers of any amount, IBTPs and contract calls "
+            "failing at any stage, fee payments that succeed or fall back to the sender's whole balance with the transaction reverted, the timeout bookkeeping — and every list of distinct accounts containing the senders, the sum of the "
+            "balances does not grow and no balance becomes negative (C14_block_no_value_created), hence over any chain of blocks (C14_history_no_value_created). "
             "Two genuine defects found by this check (self-transfer created value; negative amount moved value backwards and below zero) were repaired by fix: commits and the model follows the repaired code. "
             "Model is run against the real executor; monitor recomputes the sum of all balances after every block.",
     "note": TB + " EVM/XVM balance effects (wasm set_balance host call) and the admin-registration grant are outside the exec op language.",
-    "technique": "Lean 4 arithmetic theorems over the executable fee/transfer model + differential correspondence + balance-sum monitor",
+    "technique": "Lean 4 theorems over the executable block-execution model (per-operation arithmetic, block-level and history-level conservation by induction) + differential correspondence + balance-sum monitor",
 }
 TEXTS["C13"] = {
     "text": "Proved on the model of SimpleLedger/SimpleAccount/AccountCache for all ledger states (any dirty set, origin memo, cache and database content): read-your-write for journaled writes, "
